@@ -604,8 +604,8 @@ func (s *Service) ProcessRequest(ctx *core.Context, m map[string]interface{}, ou
 				case map[string]interface{}:
 					_, err = s.ProcessRequest(ctx, m, out)
 					if err != nil {
-						problem := fmt.Sprintf(`{"error":"%s"}`, err.Error())
-						_, err = out.Write([]byte(problem))
+						problem, _ := json.Marshal(map[string]string{"error": err.Error()})
+						_, err = out.Write(problem)
 					}
 				default:
 					problem := fmt.Sprintf(`"bad type %T"`, x)
@@ -668,8 +668,14 @@ func (s *Service) ProcessRequest(ctx *core.Context, m map[string]interface{}, ou
 		}
 
 		code, _, err := GetStringParam(m, "code", true)
+		if err != nil {
+			return nil, err
+		}
 
 		encoding, provided, err := GetStringParam(m, "encoding", false)
+		if err != nil {
+			return nil, err
+		}
 		if provided {
 			code, err = core.DecodeString(encoding, code)
 			if err != nil {
@@ -885,6 +891,9 @@ func (s *Service) ProcessRequest(ctx *core.Context, m map[string]interface{}, ou
 		}
 
 		id, _, err := GetStringParam(m, "id", false)
+		if err != nil {
+			return nil, err
+		}
 
 		// ToDo: Not this.
 		js, err := json.Marshal(fact)
@@ -954,7 +963,11 @@ func (s *Service) ProcessRequest(ctx *core.Context, m map[string]interface{}, ou
 		if err != nil {
 			return nil, err
 		}
-		bs := []byte(fmt.Sprintf(`{"fact":%s,"id":"%s"}`, js, id))
+		idjs, err := json.Marshal(id)
+		if err != nil {
+			return nil, err
+		}
+		bs := []byte(fmt.Sprintf(`{"fact":%s,"id":%s}`, js, idjs))
 
 		if _, err = out.Write(bs); err != nil {
 			core.Log(core.ERROR, ctx, "/api/loc/facts/get", "warning", err)
@@ -1014,18 +1027,30 @@ func (s *Service) ProcessRequest(ctx *core.Context, m map[string]interface{}, ou
 	case "/api/loc/facts/take": // Params: pattern
 		m["uri"] = "/api/loc/facts/search"
 		m["take"] = true
-		s.ProcessRequest(ctx, m, out)
+		if _, err := s.ProcessRequest(ctx, m, out); err != nil {
+			return nil, err
+		}
 
 	case "/api/loc/facts/replace": // Params: pattern, fact
-		// Really a 'take' followed by a 'add'.
+		// Really a 'take' followed by a 'add'.  Check what the 'add' needs before anything is taken.
+		if _, _, err := getMapParam(m, "fact", true); err != nil {
+			return nil, err
+		}
+		if _, _, err := GetStringParam(m, "id", false); err != nil {
+			return nil, err
+		}
 		m["uri"] = "/api/loc/facts/search"
 		m["take"] = true
 		core.Log(core.INFO, ctx, "service.ProcessRequest", "app_tag", "/api/loc/facts/replace", "phase", "take")
-		s.ProcessRequest(ctx, m, ioutil.Discard)
+		if _, err := s.ProcessRequest(ctx, m, ioutil.Discard); err != nil {
+			return nil, err
+		}
 
 		core.Log(core.INFO, ctx, "service.ProcessRequest", "app_tag", "/api/loc/facts/replace", "phase", "add")
 		m["uri"] = "/api/loc/facts/add"
-		s.ProcessRequest(ctx, m, out)
+		if _, err := s.ProcessRequest(ctx, m, out); err != nil {
+			return nil, err
+		}
 
 	case "/api/loc/facts/query": // Params: query
 		query, _, err := getMapParam(m, "query", true)
@@ -1105,6 +1130,9 @@ func (s *Service) ProcessRequest(ctx *core.Context, m map[string]interface{}, ou
 		}
 
 		id, _, err := GetStringParam(m, "id", false)
+		if err != nil {
+			return nil, err
+		}
 
 		// ToDo: Not this.
 		js, err := json.Marshal(rule)
